@@ -1,5 +1,6 @@
 import Lean.Data.Json
 import CbiVerif.PP.Find
+import CbiVerif.Model.FindInst
 import CbiVerif.PP.FSource
 import CbiVerif.PP.Config
 open Lean CbiVerif.PP CbiVerif.Argv CbiVerif.Config
@@ -72,7 +73,9 @@ def handlePP (j : Json) : Json :=
        ((pj.getObjValAs? (Array Json) "entries").toOption.getD #[]).toList.map fun e =>
          ({ file := (e.getObjValAs? String "file").toOption.getD "", defines := strs e "defines",
             includePaths := strs e "include_paths", includeFiles := strs e "include_files" } : Entry))
-    let st := find files codebase.toList config
+    -- the state-threading run of the one multi-file engine (`Exclude.find`), every file through the C front end
+    let xw := CbiVerif.Exclude.find (CbiVerif.FindInst.semPP files) CbiVerif.Exclude.defaultFuel codebase.toList config
+    let st : CbiVerif.PP.PState := { trees := xw.cache.map fun (f, _, t) => (f, t), assoc := xw.loc.assoc, warns := xw.loc.warns, err := xw.loc.err }
     match st.err with
     | some e => Json.mkObj [("exc", toString (repr e))]
     | none =>
